@@ -15,7 +15,7 @@ from ..core import rule, AnalysisError
 from ..engine import flow
 from ..engine import pattern as P
 from ..engine.facts import dotted, const, src, walk_func, str_value, enclosing_stmt, ancestors
-from .common import calls, raise_names, contains, pn, access_paths, assigned_from, branch_paths, keyed_values, resolve, resolve_deep
+from .common import calls, raise_names, contains, pn, access_paths, assigned_from, branch_paths, keyed_values, resolve, resolve_deep, fragment_completions
 from .common import _fold_not as _fold
 from . import c12  # line-split-agreement is registered for C11 there
 from . import c01  # line-count (line and column bookkeeping of match_reg) is registered for C11 there
@@ -173,36 +173,20 @@ def offset_algebra(ctx):
     offvar = offkw[0].id if offkw and isinstance(offkw[0], ast.Name) else None
     codevar = pn(pf, 1)
     n = 0
-    # one path per keyword group, however the dispatch is spelled (if/elif chain, guard clauses, ...)
-    seen_groups = set()
-    for p in branch_paths(pf.body):
-        if isinstance(p.exit, ast.Raise):
+    # one case per keyword (group), however the dispatch is spelled (if/elif chain, guard clauses, constant table)
+    passed = True
+    for kws, prefix, suffix, off, node_ in fragment_completions(db):
+        n += len(kws)
+        if prefix is None:
+            ctx.violation("fragment[%s]" % ",".join(kws), db.where(node_), "the code handed to the parser for %s is not <prefix> + code + <suffix>" % kws)
             continue
-        kws = None
-        for t_, v_ in p.conds:
-            tt_, vv_ = _fold(t_, v_)
-            if vv_ and _kwtest(tt_):
-                kws = _kwtest(tt_)
-        if not kws or tuple(kws) in seen_groups:
-            continue
-        seen_groups.add(tuple(kws))
-        prefix, off = "", 0
-        for s in p.stmts:
-            if isinstance(s, ast.Assign) and src(s.targets[0]) == codevar and isinstance(s.value, ast.BinOp):
-                left = s.value
-                while isinstance(left, ast.BinOp) and isinstance(left.op, ast.Add):
-                    left = left.left
-                if isinstance(left, ast.Constant) and isinstance(left.value, str):
-                    prefix = left.value
-            if isinstance(s, ast.Assign) and offvar is not None and src(s.targets[0]) == offvar:
-                off = const(s.value)
-        n += 1
+        if off == "absent":
+            passed = False
+            off = None
         want = -prefix.count("\n")
-        where_ = [t_ for t_, v_ in p.conds if _kwtest(_fold(t_, v_)[0]) == kws]
-        ctx.check(off == want, "fragment[%s]" % ",".join(kws), db.where(where_[0]) if where_ else db.where(pf), "fragment is prefixed with %r (%d line(s)) but lineno_offset is %s: errors in such control lines are reported %+d line(s) off" % (prefix, prefix.count("\n"), off, (off or 0) - want), "prefix %r <-> offset %s" % (prefix, off))
-    ctx.require(n >= 5, "PythonFragment branches found: %d" % n)
-    dflt = [s for s in pf.body if isinstance(s, ast.Assign) and offvar is not None and src(s.targets[0]) == offvar]
-    ctx.check(bool(sup) and offvar is not None and bool(dflt) and const(dflt[0].value) == 0, "fragment.offset-passed", db.where(pf), "the offset is not handed to PythonCode", "lineno_offset forwarded")
+        ctx.check(off == want, "fragment[%s]" % ",".join(kws), db.where(node_), "fragment is prefixed with %r (%d line(s)) but lineno_offset is %s: errors in such control lines are reported %+d line(s) off" % (prefix, prefix.count("\n"), off, (off or 0) - want), "prefix %r <-> offset %s" % (prefix, off))
+    ctx.require(n >= 7, "PythonFragment keyword cases found: %d" % n)
+    ctx.check(bool(sup) and passed, "fragment.offset-passed", db.where(pf), "the offset is not handed to PythonCode", "lineno_offset forwarded")
     pc = db.func("ast.PythonCode.__init__")
     t = src(pc)
     ctx.check(P.has(pc, "$s = $c.lstrip()\n...\n$o += $c[:len($c) - len($s)].count('\\n')"), "code.strip-offset", db.where(pc), "leading blank lines stripped from a block are not added to the line offset", "offset += newlines stripped")
